@@ -1,4 +1,5 @@
 import OrsoVerif.Lemmas.TypeName
+import OrsoVerif.Lemmas.TypeNameSession
 /-!
 # C06 — Type names resolve to exactly the type they denote
 
@@ -365,8 +366,118 @@ theorem description_roundtrip (specs : List (Str × List Str × TName)) (cols : 
   obtain ⟨hn, hr⟩ := hrt i sp c hs hc
   exact ⟨e, he, by rw [hname, hn], hcode, hr⟩
 
+/-- **A read of `description` is a function of the schema as it is at that read.**  Take any number of
+schemas, any number of frames over them (several frames may share one schema object, as a frame and the frames
+derived from it do), and any sequence of steps: a new frame, a read of some frame's `description`, a column
+of some schema redeclared with other type attributes.  On the code as it is now (`descRead`: the property
+carries no result cache and its body computes the list) every read returns `description` of the schema *as
+edited so far* — whatever was read before, on this frame or another one.  The tuple of names `description`
+iterates over is `column_names`, which *is* kept per frame (`namesRead`, modelled: `Sess.keptNames`); the
+hypothesis `NamesOK` says that a kept tuple, if any, equals the current names of its frame's columns — true of a
+fresh process (`namesOK_of_none`) and maintained by every step, since a redeclaration keeps the column's name. -/
+theorem session_reads_current (s : Sess) (hn : NamesOK s) (ops : List SOp)
+    (hops : ∀ op ∈ ops, op.keepsNames = true) :
+    session s ops = currentReads s.schemas s.frames ops := by
+  unfold session
+  -- read from the source on this run: no caching decorator on the property, and its body computes the list
+  have hmode : descRead = .fresh := by decide
+  rw [hmode]
+  exact run_fresh_eq namesRead s hn ops hops
+
+/-- **Whatever is renamed in between, the type codes of every read are current.**  The same sessions with one more
+kind of step: a column renamed.  `column_names` is kept per frame (`namesRead`), so after a rename a frame that was
+read before reports the *old name* (`stale_name_after_rename`, observed on the code, not judged by this property) —
+but the type code, precision and scale of every entry are those of the column in that position as it is declared
+at that read: the entries are built by position (`descLookup`), and no step changes the number of columns. -/
+theorem session_codes_current (s : Sess) (hn : s.keptNames = none) (ops : List SOp) :
+    bareReads (session s ops) = bareReads (currentReads s.schemas s.frames ops) := by
+  unfold session
+  have hmode : descRead = .fresh := by decide
+  rw [hmode]
+  exact run_fresh_bare namesRead descLookup_byPosition s (namesLenOK_of_none hn) ops
+
+/-- the stale name, inside the model with `column_names` kept per frame (stated for that mode explicitly, so that
+dropping the cache from `column_names` does not break it): `[a INTEGER]`, read, rename `a` to `z`, read on the same
+frame → still `a`; a second frame over the same schema reports `z`, and after that (the single entry now belongs to
+the second frame) so does the first. -/
+theorem stale_name_after_rename :
+    Sess.run .fresh .keptPerFrame { schemas := [[{ name := ['a'], desc := { ty := .member "INTEGER".toList } }]], frames := [0, 0] }
+      [.read 0, .rename 0 0 ['z'], .read 0, .read 1, .read 0]
+    = [some [⟨['a'], "INTEGER".toList, none, none⟩], some [⟨['a'], "INTEGER".toList, none, none⟩],
+       some [⟨['z'], "INTEGER".toList, none, none⟩], some [⟨['z'], "INTEGER".toList, none, none⟩]] := by decide
+
+/-- With the last answer kept per frame (`@single_item_cache` on the property, as on `column_names`) this is
+false: read, redeclare `a INTEGER` as `DECIMAL(10,2)`, read again — the second read still reports `INTEGER`,
+which does not resolve back to the DECIMAL the column now is. -/
+theorem kept_description_counterexample :
+    let dec : Desc := { ty := .member litDecimal, precision := some 10, scale := some 2 }
+    let s : Sess := { schemas := [[{ name := ['a'], desc := { ty := .member "INTEGER".toList } }]], frames := [0] }
+    let ops : List SOp := [.read 0, .redeclare 0 0 dec, .read 0]
+    Sess.run .keptPerFrame namesRead s ops
+      = [some [⟨['a'], "INTEGER".toList, none, none⟩], some [⟨['a'], "INTEGER".toList, none, none⟩]] ∧
+    currentReads s.schemas s.frames ops
+      = [some [⟨['a'], "INTEGER".toList, none, none⟩], some [⟨['a'], "DECIMAL(10,2)".toList, some 10, some 2⟩]] ∧
+    codeResolvesTo (.decimal 10 2) "INTEGER".toList = false := by decide
+
+/-- **After any sequence of redeclarations and reads, every read resolves to the type declared at that time.**
+Schemas whose columns are declared with well-formed type names (under arbitrary names and aliases), any frames
+over them, then any sequence of steps — new frames, reads, a column redeclared with another well-formed type
+name (`DECIMAL(p,s)`, `VARCHAR[n]`, `BLOB[n]`, `ARRAY<T>`, a base type).  Every read of a frame returns a list with
+one entry per column of its schema; entry `i` bears column `i`'s name and its type code resolves back, through
+`from_name`, to the base type, DECIMAL precision/scale and element type of the name column `i` is declared with
+at the time of that read (`ReadsResolve`, `codeResolvesTo`). -/
+theorem session_roundtrip (D : List (List ColSpec)) (S : List (List Col)) (fr : List Nat)
+    (kept : Option (Nat × List Entry)) (ops : List NOp)
+    (hD : Declared D S) (hops : ∀ op ∈ ops, op.wf = true) :
+    ReadsResolve D fr ops (session { schemas := S, frames := fr, kept := kept } (ops.map NOp.lower)) := by
+  rw [session_reads_current _ (namesOK_of_none rfl) _ (by
+    intro op hop
+    obtain ⟨o, _, rfl⟩ := List.mem_map.mp hop
+    cases o <;> rfl)]
+  simp only
+  induction ops generalizing D S fr with
+  | nil => simp [ReadsResolve, currentReads]
+  | cons op ops ih =>
+    have hrest : ∀ op ∈ ops, op.wf = true := fun o ho => hops o (List.mem_cons_of_mem _ ho)
+    cases op with
+    | frame j =>
+      simp only [List.map_cons, NOp.lower, currentReads, ReadsResolve]
+      exact ih D S (fr ++ [j]) hD hrest
+    | redeclare j i t =>
+      have ht : wfName t = true := by simpa [NOp.wf] using hops _ (List.mem_cons_self ..)
+      obtain ⟨c, hc, _⟩ := typeCode_roundtrip t ht
+      have hdd : declaredDesc t = c := by simp [declaredDesc, hc]
+      simp only [List.map_cons, NOp.lower, currentReads, ReadsResolve, hdd]
+      exact ih _ _ fr ⟨setDeclAt_wf ht hD.1, setDeclAt_rel hc hD.2⟩ hrest
+    | read k =>
+      simp only [List.map_cons, NOp.lower, currentReads, ReadsResolve]
+      refine ⟨?_, ih D S fr hD hrest⟩
+      intro j sps hk hj
+      obtain ⟨cols, hcols⟩ := forall₂_getElem?_left hD.2 hj
+      have hrel : List.Forall₂ declRel sps cols := forall₂_getElem? hD.2 hj hcols
+      obtain ⟨es, hes, hlen, hent⟩ := description_roundtrip sps cols
+        (fun sp hsp => hD.1 sps (List.mem_of_getElem? hj) sp hsp) hrel
+      refine ⟨es, by simp [hk, hcols, hes], by rw [hlen, forall₂_length hrel], ?_⟩
+      intro i sp hsp
+      obtain ⟨c, hc⟩ := forall₂_getElem?_left hrel hsp
+      obtain ⟨e, he, hname, hcode, hrt⟩ := hent i sp c hsp hc
+      exact ⟨e, he, hname, columnRoundTrips_resolves hrt hcode.symm⟩
+
 /-! Non-vacuity: the hypotheses are met by concrete, non-trivial inputs, and the rejection theorems
 reject concrete names. -/
+
+/-- the hypotheses of `session_roundtrip` are met by a concrete session: `a INTEGER`, read, redeclared as
+`DECIMAL(10,2)`, read, redeclared as `ARRAY<TIMESTAMP>`, read on a second frame. -/
+example :
+    Declared [[(['a'], [], .base "INTEGER".toList)]] [[{ name := ['a'], desc := { ty := .member "INTEGER".toList } }]] ∧
+    (∀ op ∈ [NOp.read 0, .redeclare 0 0 (.decimal 10 2), .read 0, .frame 0, .redeclare 0 0 (.array "TIMESTAMP".toList),
+      .read 1], op.wf = true) ∧
+    session { schemas := [[{ name := ['a'], desc := { ty := .member "INTEGER".toList } }]], frames := [0] }
+      ([NOp.read 0, .redeclare 0 0 (.decimal 10 2), .read 0, .frame 0, .redeclare 0 0 (.array "TIMESTAMP".toList),
+        .read 1].map NOp.lower)
+      = [some [⟨['a'], "INTEGER".toList, none, none⟩], some [⟨['a'], "DECIMAL(10,2)".toList, some 10, some 2⟩],
+         some [⟨['a'], "ARRAY<TIMESTAMP>".toList, none, none⟩]] :=
+  ⟨⟨by decide, .cons (.cons ⟨rfl, rfl, by decide⟩ .nil) .nil⟩, by decide, by decide⟩
 
 example : wfName (.decimal 38 38) = true ∧ wfName (.varchar 65535) = true ∧
     wfName (.array "TIMESTAMP".toList) = true ∧ wfName (.base "JSONB".toList) = true ∧
